@@ -6,6 +6,7 @@ import (
 	"regexp"
 	"runtime/debug"
 	"sort"
+	"strconv"
 	"strings"
 
 	"github.com/evolbioinfo/goalign/align"
@@ -56,7 +57,7 @@ func init() { Register(c01{}) }
 func (c01) ID() string       { return "C01" }
 func (c01) New() interface{} { return &C01Case{} }
 func (c01) Rule() string {
-	return "each run: a start container (alignment or sequence set; empty, one row, one column, mixed case and colliding names included; one of the three duplicate-name policies) and a history of 1-12 operations out of 30 kinds (add with right / wrong length and fresh / existing name, append, concat, rename, rename-regexp, clean-names, trim-names, trim-names-auto, append-identifier, sort, shuffle, filter-length, deduplicate, remove-gap-seqs, translate, clone, sample, clear, sub-align, unalign, replace, case changes, set-policy, remove-gap-sites, trim-sequences) with arguments resolved against the current content; after every operation all access paths are compared with each other and with the list model (operations whose documentation does not fix the result are only held to the invariants, after which the model is re-read from the container). Distinct = distinct sequence of operation kinds + start shape; non-trivial = at least 2 operations that change the container."
+	return "each run: a start container (alignment or sequence set; empty, one row, one column, mixed case and colliding names included; one of the three duplicate-name policies) and a history of 1-12 operations out of 48 kinds (add with right / wrong length and fresh / existing name, append, concat, rename, rename-regexp, clean-names, trim-names, trim-names-auto, append-identifier, sort, shuffle, filter-length, deduplicate, remove-gap-seqs, remove-character-seqs, translate in one or three phases, clone, sample, clear, sub-align, select-sites, transpose, unalign, replace, replace-match-chars, mask, case changes, set-policy, remove-gap-sites, remove-character-sites, remove-majority-sites, compress, trim-sequences; and, held to the invariants and to what they conserve, swap, recombine, shuffle-sites, add-gaps, mutate, simulate-rogue, mask-unique, mask-occurences, rand-sub-align) with arguments resolved against the current content; after every operation all access paths are compared with each other and with the list model (operations whose documentation does not fix the result are only held to the invariants, after which the model is re-read from the container). Distinct = distinct sequence of operation kinds + start shape; non-trivial = at least 2 operations that change the container."
 }
 
 var c01Names = []string{"a", "b", "c", "A", "seq1", "seq2", "a_0001", "s:1", " x", "t.1|u", "Seq_10", "zz"}
@@ -71,7 +72,9 @@ func c01Seq(r *Rand, l int) string {
 
 var c01Kinds = []string{"add", "add", "add", "append", "concat", "rename", "rename", "rename-regexp", "clean-names", "trim-names", "trim-names-auto", "append-identifier",
 	"sort", "sort", "shuffle", "filter-length", "deduplicate", "remove-gap-seqs", "translate", "clone", "sample", "clear", "sub-align", "unalign", "replace", "to-upper", "to-lower", "set-policy",
-	"remove-gap-sites", "trim-sequences", "remove-majority-sites", "remove-character-sites", "compress"}
+	"remove-gap-sites", "trim-sequences", "remove-majority-sites", "remove-character-sites", "compress",
+	"select-sites", "transpose", "mask", "mask", "remove-character-seqs", "replace-match-chars",
+	"swap", "recombine", "shuffle-sites", "add-gaps", "mutate", "simulate-rogue", "mask-unique", "mask-occurences", "rand-sub-align"}
 
 func (c01) Gen(rs uint64, tier string, race bool) interface{} {
 	r := NewRand(rs)
@@ -142,11 +145,31 @@ func (c01) Gen(rs uint64, tier string, race bool) interface{} {
 			op.N = r.Intn(10)
 		case "replace":
 			op.Name = r.PickS("A", "C", "-", "N")
-			op.Seq = r.PickS("T", "G", "N", "-")
+			op.Seq = r.PickS("T", "G", "N", "-", ".")
 		case "set-policy":
 			op.N = r.Pick(align.IGNORE_NONE, align.IGNORE_NAME, align.IGNORE_SEQUENCE)
 		case "translate":
 			op.N = r.Pick(0, 0, 1, 2, -1)
+		case "select-sites":
+			for k := r.Range(0, 6); k > 0; k-- {
+				op.Pairs = append(op.Pairs, fmt.Sprint(r.Intn(64)))
+			}
+		case "mask":
+			op.Name = r.PickS("", "", "AMBIG", "GAP", "MAJ", "X", "-")
+			op.J = r.Pick(0, 0, 1, 2) // 0: no reference; 1: reference row, its characters kept; 2: reference row given, not used
+		case "mask-unique", "mask-occurences":
+			op.Name = r.PickS("", "AMBIG", "GAP", "MAJ", "?")
+			op.J = r.Pick(0, 1)
+			op.N = r.Intn(4)
+		case "remove-character-seqs":
+			op.Name = r.PickS("A", "-", "N", "a", "T")
+			op.N = r.Pick(0, 0, 1, 2, 3, 4, -1, 5) // cutoff in quarters; -1 and 5 are outside [0,1]
+			op.J = r.Intn(8)                       // ignoreCase, ignoreGaps, ignoreNs
+		case "swap", "recombine", "shuffle-sites", "add-gaps", "mutate", "simulate-rogue":
+			op.N = r.Pick(0, 1, 2, 3, 4) // rate in quarters
+			op.J = r.Pick(0, 0, 1, 2, 4) // second rate in quarters
+		case "rand-sub-align":
+			op.N = r.Intn(10)
 		}
 		c.Ops = append(c.Ops, op)
 	}
@@ -708,13 +731,6 @@ func (c01) Run(ctx *Ctx, ci interface{}) (o Outcome) {
 				fail("unexpected-error", "Deduplicate returns %v", err)
 				return
 			}
-		case "remove-gap-seqs":
-			if !isAl {
-				applied = false
-				break
-			}
-			modelled = false
-			al.RemoveGapSeqs([]float64{0, 0.5, 1}[op.N%3], op.Flag)
 		case "remove-gap-sites":
 			if !isAl || n == 0 {
 				applied = false
@@ -989,6 +1005,341 @@ func (c01) Run(ctx *Ctx, ci interface{}) (o Outcome) {
 			cont.IgnoreIdentical(m.policy)
 			if m.dupNames() {
 				modelled = false
+			}
+		case "select-sites":
+			if !isAl || n == 0 {
+				applied = false
+				break
+			}
+			{
+				l := m.length()
+				var sites []int
+				for _, p := range op.Pairs {
+					k, _ := strconv.Atoi(p)
+					if l > 0 {
+						sites = append(sites, k%l)
+					}
+				}
+				sub, err := al.SelectSites(sites)
+				if err != nil {
+					fail("unexpected-error", "SelectSites(%v) on %d columns returns %v", sites, l, err)
+					return
+				}
+				for i := range m.rows {
+					b := make([]byte, len(sites))
+					for k, st := range sites {
+						b[k] = m.rows[i].Seq[st]
+					}
+					m.rows[i].Seq = string(b)
+				}
+				cont = sub
+				cont.IgnoreIdentical(m.policy)
+				if m.dupNames() {
+					modelled = false
+				}
+			}
+		case "transpose":
+			if !isAl {
+				applied = false
+				break
+			}
+			{
+				tr, err := al.Transpose()
+				if err != nil {
+					fail("unexpected-error", "Transpose() returns %v", err)
+					return
+				}
+				var rows []HRow
+				for k := 0; k < m.length(); k++ {
+					b := make([]byte, n)
+					for i := range m.rows {
+						b[i] = m.rows[i].Seq[k]
+					}
+					rows = append(rows, HRow{fmt.Sprint(k), string(b)})
+				}
+				m.rows = rows
+				m.dupOK = false
+				cont = tr
+				cont.IgnoreIdentical(m.policy)
+			}
+		case "mask":
+			if !isAl || n == 0 || (cont.Alphabet() != align.NUCLEOTIDS && cont.Alphabet() != align.AMINOACIDS) {
+				applied = false
+				break
+			}
+			{
+				l := m.length()
+				start := op.I % (l + 1)
+				ref, noref := "", false
+				refrow := op.I % n
+				if op.J > 0 && !m.dupNames() {
+					ref, noref = m.rows[refrow].Name, op.J == 1
+				}
+				err := al.Mask(ref, start, op.N, op.Name, op.Flag, noref)
+				if err != nil {
+					fail("unexpected-error", "Mask(ref=%q start=%d length=%d replace=%q nogap=%v noref=%v) returns %v", ref, start, op.N, op.Name, op.Flag, noref, err)
+					return
+				}
+				rep := byte('N')
+				if cont.Alphabet() == align.AMINOACIDS {
+					rep = 'X'
+				}
+				switch op.Name {
+				case "GAP":
+					rep = '-'
+				case "X", "-":
+					rep = op.Name[0]
+				}
+				for k := start; k < start+op.N && k < l; k++ {
+					if op.Name == "MAJ" {
+						// the most frequent character of the column; a tie is not decided by the documentation
+						cnt := map[byte]int{}
+						best, nbest := 0, 0
+						for _, r := range m.rows {
+							cnt[r.Seq[k]]++
+						}
+						for ch, v := range cnt {
+							if v > best {
+								best, nbest, rep = v, 1, ch
+							} else if v == best {
+								nbest++
+							}
+						}
+						if nbest > 1 {
+							modelled = false
+							break
+						}
+					}
+					refch := byte(0)
+					if noref {
+						refch = m.rows[refrow].Seq[k]
+					}
+					for i := range m.rows {
+						ch := m.rows[i].Seq[k]
+						if (op.Flag && ch == '-') || (noref && ch == refch) {
+							continue
+						}
+						b := []byte(m.rows[i].Seq)
+						b[k] = rep
+						m.rows[i].Seq = string(b)
+					}
+				}
+			}
+		case "remove-character-seqs", "remove-gap-seqs":
+			if !isAl {
+				applied = false
+				break
+			}
+			{
+				gapsOnly := op.Kind == "remove-gap-seqs" // RemoveGapSeqs(cutoff, ignoreNs): the same for the gap character
+				ch := byte('-')
+				cutoff := []float64{0, 0.5, 1}[(op.N%3+3)%3]
+				ic, ig, in := false, false, op.Flag
+				if !gapsOnly {
+					ch = op.Name[0]
+					cutoff = float64(op.N) / 4
+					ic, ig, in = op.J&1 != 0, op.J&2 != 0, op.J&4 != 0
+				}
+				eff := cutoff
+				if eff < 0 || eff > 1 {
+					eff = 0
+				}
+				var keep []HRow
+				undecided := false
+				for _, r := range m.rows {
+					nb, total := 0, 0
+					for k := 0; k < len(r.Seq); k++ {
+						x := r.Seq[k]
+						if x == ch || (ic && strings.EqualFold(string(x), string(ch))) {
+							nb++
+						}
+						if !(ig && x == '-') && !(in && (x == 'N' || x == 'n')) {
+							total++
+						}
+					}
+					if total == 0 && eff > 0 {
+						undecided = true // a share of nothing: the documentation does not say
+					}
+					if (eff > 0 && float64(nb) >= eff*float64(total)) || (eff == 0 && nb > 0) {
+						continue
+					}
+					keep = append(keep, r)
+				}
+				var got int
+				if gapsOnly {
+					got = al.RemoveGapSeqs(cutoff, in)
+				} else {
+					got = al.RemoveCharacterSeqs(ch, cutoff, ic, ig, in)
+				}
+				if cont.Alphabet() != align.NUCLEOTIDS && in {
+					undecided = true // the "any" character is X there
+				}
+				if undecided || m.dupNames() {
+					modelled = false
+				} else {
+					if got != len(m.rows)-len(keep) {
+						fail("differs-from-model", "RemoveCharacterSeqs(%q, cutoff %v, ignoreCase=%v ignoreGaps=%v ignoreNs=%v) reports %d removed rows, the model removes %d", ch, cutoff, ic, ig, in, got, len(m.rows)-len(keep))
+						return
+					}
+					m.rows = keep
+				}
+			}
+		case "replace-match-chars":
+			if !isAl {
+				applied = false
+				break
+			}
+			al.ReplaceMatchChars()
+			for i := 1; i < n; i++ {
+				b := []byte(m.rows[i].Seq)
+				for k := range b {
+					if b[k] == '.' && m.rows[0].Seq[k] != '.' {
+						b[k] = m.rows[0].Seq[k]
+					}
+				}
+				m.rows[i].Seq = string(b)
+			}
+		case "swap", "recombine", "shuffle-sites", "add-gaps", "mutate", "simulate-rogue", "mask-unique", "mask-occurences", "rand-sub-align":
+			// randomised or data-dependent edits: held to the invariants, to what they may not touch (names, order,
+			// number of rows, length) and to what they conserve; the model is then re-read
+			if !isAl || n == 0 {
+				applied = false
+				break
+			}
+			{
+				rand.Seed(op.Seed)
+				modelled = false
+				r1, r2 := float64(op.N)/4, float64(op.J)/4
+				l := m.length()
+				wantLen := l
+				var err error
+				switch op.Kind {
+				case "swap":
+					err = al.Swap(r1, r2)
+				case "recombine":
+					err = al.Recombine(r1, r2, op.Flag)
+				case "shuffle-sites":
+					al.ShuffleSites(r1, r2, op.Flag)
+				case "add-gaps":
+					al.AddGaps(r1, r2)
+				case "mutate":
+					al.Mutate(r1 / 4)
+				case "simulate-rogue":
+					al.SimulateRogue(r1, r2)
+				case "mask-unique", "mask-occurences":
+					ref := ""
+					if op.J == 1 && !m.dupNames() {
+						ref = m.rows[op.I%n].Name
+					}
+					if cont.Alphabet() != align.NUCLEOTIDS && cont.Alphabet() != align.AMINOACIDS {
+						applied = false
+					} else if op.Kind == "mask-unique" {
+						err = al.MaskUnique(ref, op.Name)
+					} else {
+						err = al.MaskOccurences(ref, op.N, op.Name)
+					}
+				case "rand-sub-align":
+					var sub align.Alignment
+					sub, err = al.RandSubAlign(op.N, op.Flag)
+					if op.N > l || op.N < 1 {
+						if err == nil && op.N > l {
+							fail("add-verdict", "RandSubAlign(%d) of %d columns reports no error", op.N, l)
+							return
+						}
+						if err != nil {
+							o.Add("rejected_operations", 1)
+							err = nil
+							break
+						}
+					}
+					if err == nil {
+						cont = sub
+						cont.IgnoreIdentical(m.policy)
+						wantLen = op.N
+					}
+				}
+				if !applied {
+					break
+				}
+				if err != nil {
+					o.Add("operation_errors_outside_the_statement", 1)
+					break
+				}
+				rows, prob := observe(cont)
+				if prob != "" {
+					fail("unreadable-row", "%s", prob)
+					return
+				}
+				if len(rows) != n && !m.dupNames() {
+					fail("differs-from-model", "%s changes the number of rows from %d to %d", op.Kind, n, len(rows))
+					return
+				}
+				for i := range rows {
+					if i < n && !m.dupNames() && rows[i].Name != m.rows[i].Name {
+						fail("differs-from-model", "%s changes the name of row %d from %q to %q", op.Kind, i, m.rows[i].Name, rows[i].Name)
+						return
+					}
+					if len(rows[i].Seq) != wantLen {
+						fail("ragged-or-stale-length", "%s: row %d (%q) has %d residues, %d expected\ncontainer:\n%s", op.Kind, i, rows[i].Name, len(rows[i].Seq), wantLen, fmtRows(rows))
+						return
+					}
+				}
+				colset := func(rs []HRow, k int) string {
+					b := make([]byte, len(rs))
+					for i := range rs {
+						b[i] = rs[i].Seq[k]
+					}
+					sort.Slice(b, func(x, y int) bool { return b[x] < b[y] })
+					return string(b)
+				}
+				if len(rows) == n && !m.dupNames() {
+					switch {
+					case op.Kind == "swap", op.Kind == "recombine" && op.Flag, op.Kind == "shuffle-sites" && op.J == 0:
+						// residues move between rows inside their column
+						for k := 0; k < l; k++ {
+							if colset(rows, k) != colset(m.rows, k) {
+								fail("differs-from-model", "%s: column %d holds %q, it held %q (residues may only move between rows of one column)", op.Kind, k, colset(rows, k), colset(m.rows, k))
+								return
+							}
+						}
+					case op.Kind == "add-gaps":
+						for i := range rows {
+							for k := 0; k < l; k++ {
+								if rows[i].Seq[k] != m.rows[i].Seq[k] && rows[i].Seq[k] != '-' {
+									fail("differs-from-model", "AddGaps: row %d site %d changes from %q to %q", i, k, m.rows[i].Seq[k], rows[i].Seq[k])
+									return
+								}
+							}
+						}
+					case op.Kind == "simulate-rogue":
+						// a rogue row is a permutation of its own residues
+						for i := range rows {
+							a, b := []byte(rows[i].Seq), []byte(m.rows[i].Seq)
+							sort.Slice(a, func(x, y int) bool { return a[x] < a[y] })
+							sort.Slice(b, func(x, y int) bool { return b[x] < b[y] })
+							if string(a) != string(b) {
+								fail("differs-from-model", "SimulateRogue: row %d holds other residues than before (%q, was %q)", i, rows[i].Seq, m.rows[i].Seq)
+								return
+							}
+						}
+					case op.Kind == "rand-sub-align" && op.Flag:
+						// consecutive: one window of the alignment
+						found := false
+						for st := 0; st+wantLen <= l && !found; st++ {
+							found = true
+							for i := range rows {
+								if m.rows[i].Seq[st:st+wantLen] != rows[i].Seq {
+									found = false
+									break
+								}
+							}
+						}
+						if !found {
+							fail("differs-from-model", "RandSubAlign(%d, consecutive): the result is no window of the alignment\ncontainer:\n%s", wantLen, fmtRows(rows))
+							return
+						}
+					}
+				}
 			}
 		case "unalign":
 			for i := range m.rows {
